@@ -242,8 +242,8 @@ def clustering(
     # distance matrix and dendrogram do not change from run to run
     platforms = sorted(extract_platforms(setmap))
 
-    if len(platforms) == 1:
-        log.error("clustering is not supported for a single platform.")
+    if len(platforms) < 2:
+        log.error("clustering is not supported for fewer than two platforms.")
         return None
     util.ensure_ext(output_name, ".png")
 
